@@ -25,7 +25,9 @@ RULE = ("(systematic) for each index rule (name: +1 zero form; prefix: 'same' ze
         "closure = no new canonical state. (walks) long adversarial random walks through TermEncoder.encode_iri / "
         "encode_literal -> Decoder for sizes 8..4000; (row walks) statement-shaped histories through TermEncoder.begin_row with "
         "tiny tables, where all entry rows of a row are ingested before its terms are resolved (a refused row is fine), and "
-        "histories interrupted by a rejected statement on a real stream (catch-and-continue). Oracles on every transition: ids in [0,size]; live entries <= size; "
+        "histories interrupted by a rejected statement on a real stream (catch-and-continue); (entry histories) many-name statement "
+        "sequences through every public serializer entry point of both integrations with name tables of 8..15, judged by the "
+        "independent decoder against the sizes the stream declares. Oracles on every transition: ids in [0,size]; live entries <= size; "
         "string resolved by the real reader == string meant; same through an independent table; writer map and reader "
         "table mirror each other. Non-trivial = distinct canonical states in which the table is full (BFS) plus walk "
         "steps that evicted.")
@@ -491,6 +493,36 @@ def interrupted_history(ctx, rng):
                      "stream_refused_further_use": info.get("refused")})
 
 
+def entry_history(ctx, rng):
+    """Histories through the PUBLIC entry points: the table sizes the caller passes in the options are the sizes the
+    stream declares, and the writer behind every entry point (guess_stream, for_rdflib, sink.serialize, ...) must mirror a
+    reader that allocates exactly those sizes.  Many distinct names over small tables; judged by the independent decoder
+    (every id within the declared size and resolving to the intended string) and by the input coming back."""
+    from . import c03
+    from .. import workloads as _w
+
+    cfg, stmts, ns = _w.serializer_case(rng, max_len=60, p_ns=0.0)
+    if cfg["entry"] != "sink_serialize":
+        n, p, d = cfg["preset"]
+        need = gen.need_of(stmts, cfg["physical"], p > 0)
+        cfg["preset"] = (max(rng.choice([8, 9, 11, 13, 15]), need[1]), max(min(p, rng.choice([2, 3, 5])), need[0]) if p else 0, d)
+    w, res = c03.check_stream(cfg, stmts, ns)
+    ctx.observe("entry-histories")
+    ctx.observe(f"entry-history:{cfg['integration']}:{cfg['entry']}")
+    if w is not None and w["clause"] != "serializer-raised":
+        ctx.violation({"clause": "entry-history:" + w["clause"], "kind": "walk", "sizes": list(cfg["preset"]), "mode": "entry",
+                       "cfg": cfg, "summary": f"{cfg['integration']}:{cfg['entry']} sizes {cfg['preset']} rdf_star={cfg['rdf_star']}: "
+                                              + w["summary"]})
+    ev = 0
+    if res is not None:
+        c = res.counters
+        ev = c["name-eviction"] + c["prefix-eviction"] + c["datatype-eviction"]
+        if ev:
+            ctx.observe("entry-histories-with-eviction")
+    ctx.case(("entry", sorted(cfg.items()), stmts), ev > 0,
+             sample={"kind": "entry-history", "entry": f"{cfg['integration']}:{cfg['entry']}", "sizes": list(cfg["preset"]), "evictions": ev})
+
+
 def _walk_violation(ctx, b: Broken, sizes, mode, hist):
     ctx.violation({"clause": b.clause, "kind": "walk", "sizes": list(sizes), "mode": mode,
                    "history_tail": [list(h) for h in hist],
@@ -528,6 +560,8 @@ def run_shard(ctx):
         row_sizes = [(8, 1, 1), (8, 2, 2), (8, 3, 1), (9, 2, 0), (8, 0, 2), (12, 4, 3), (16, 3, 3)][(i + ctx.shard) % 7]
         for k in range(40):
             interrupted_history(ctx, ctx.rng("interrupted", i, k))
+        for k in range(60):
+            entry_history(ctx, ctx.rng("entry", i, k))
         row_walk(ctx, ctx.rng("rows", i), row_sizes, 3_000 if ctx.tier == "quick" else 30_000,
                  max(ctx.deadline, time.monotonic() + 2))
         i += 1
